@@ -306,6 +306,7 @@ func (f *Frame) loopHeader(b *ssa.BasicBlock, preds []*ssa.BasicBlock, conds []s
 		wnames = append(wnames, n)
 	}
 	sort.Strings(wnames)
+	e.note("loop %d of %s may write: %s %s", ord, f.fn.Name(), strings.Join(wnames, " "), strings.Join(w.prefixes, " "))
 	// make sure written components exist in the pre-state (so that auto-frame can relate them)
 	for _, n := range wnames {
 		e.comp(f.st, n, w.comps[n])
